@@ -2,7 +2,7 @@
    Each is closed by `exact <lemma>` and followed by Print Assumptions.
    `compress` / `decompress` stand for the five compression libraries; the only thing asked
    of them is codec_ok (decompress after compress is the identity), where it is needed. *)
-From V Require Import C17_Spec C17_Proofs C17_ProofsReq.
+From V Require Import C17_Spec C17_Proofs C17_ProofsReq C17_ProofsQ.
 Open Scope N_scope.
 
 (* ---- the body encoders ---- *)
@@ -163,6 +163,13 @@ Theorem request_query_chars : forall m x, In x (values_encode m) -> valid_char E
 Proof. exact values_encode_chars. Qed.
 Print Assumptions request_query_chars.
 
+(* and it decodes (URL.Query on the receiving side) to the multimap it was made from: for EVERY name exactly the
+   values it had, in order - whatever bytes names and values consist of ('&', '=', '+', ';', '%', space, UTF-8 ...) *)
+Theorem request_query_roundtrip : forall m k,
+  map_bytes m -> hm_vals k (parse_query (values_encode m)) = hm_vals k m.
+Proof. exact query_roundtrip_proof. Qed.
+Print Assumptions request_query_roundtrip.
+
 (* a URI that does not start with '/', '?' or '#', has a control byte before the fragment or a '%' not
    followed by two hex digits in path or fragment: RoundTrip fails, nothing is sent to the given server *)
 Theorem request_refused : forall compress orig r,
@@ -255,3 +262,8 @@ Example ex_cache :
   wrap_streaming true false [RErr 7; RMsg (bs "a") false] 2 = WHandler [RErr 7; RMsg (bs "a") false] 2 /\
   wrap_streaming true false [RMsg (bs "a") true; RMsg (bs "b") false; RErr 7; RMsg (bs "c") false] 3 = WRaw 3 true 1.
 Proof. vm_compute. repeat split. Qed.
+Example ex_query_roundtrip :
+  let m := [(bs "k&=", [bs "a&b=c"; bs "x+y z"]); (bs ";", [bs "100%"; []]); (bs "a", [])] in
+  map_bytes m /\ values_encode m = bs "%3B=100%25&%3B=&k%26%3D=a%26b%3Dc&k%26%3D=x%2By+z" /\
+  parse_query (values_encode m) = [(bs ";", [bs "100%"; []]); (bs "k&=", [bs "a&b=c"; bs "x+y z"])].
+Proof. split; [|vm_compute; split; reflexivity]. repeat constructor; vm_compute; reflexivity. Qed.
